@@ -324,63 +324,79 @@ def run(pid, ctx, rep):
 
 # ---------------------------------------------------------------------------------------------- gtxn keys through the fixpoint (C10)
 
+def gtxn_env(ctx):
+    from .rules.cfg_rules import PT, PF
+    from .rules.cmptables import _find_analyses, _addr_consts, TC
+    w = ctx.world
+    w.module(PF).values["_apply_transaction_context_analysis"] = ("builtin", "noop")
+    an = _find_analyses(ctx)
+    ANY, NO = _addr_consts(ctx, an["addr_fields"])
+    KH = TC + ".utils.key_helpers"
+    return {"pt": w.func(PT, "parse_teal"), "cf": w.func(PF, "construct_function"), "an": an, "ANY": ANY,
+            "abs_key": w.func(KH, "get_absolute_index_key"), "rel_key": w.func(KH, "get_relative_index_key"), "at_key": w.func(KH, "get_gtxn_at_index_key")}
+
+
+def gtxn_compare(ctx, env, name, src):
+    """the address analysis with all its gtxn keys on one program against the reference semantics: (name, src, what, got, want) disagreements"""
+    from .rules.cfg_rules import reference_cfg
+    from . import refsem
+    w = ctx.world
+    pt, cf, an, ANY = env["pt"], env["cf"], env["an"], env["ANY"]
+    abs_key, rel_key, at_key = env["abs_key"], env["rel_key"], env["at_key"]
+    out = []
+    ref = reference_cfg(ctx, src)
+    teal = w.call(pt, src, "c")
+    fn = w.call(cf, teal, ["B0"])
+    fblocks = {w.getattr(b, "idx"): b for b in w.getattr(fn, "blocks")}
+    # group indices first (the address analysis reads them), then the address analysis with the gtxn keys of RekeyTo
+    gi = w.new(an["int_fields"], fn)
+    w.call(w.method(gi, "run_analysis"))
+    me = w.new(an["addr_fields"], fn)
+    me.fields["BASE_KEYS"] = ["RekeyTo"]
+    me.fields["KEYS_WITH_GTXN"] = ["RekeyTo"]
+    me.fields["_store_results"] = ("builtin", "noop")
+    w.call(w.method(me, "run_analysis"))
+    bc = w.getattr(me, "_block_contexts")
+    for fld, key in (("abs1.rekey", w.call(abs_key, 1, "RekeyTo")), ("abs2.rekey", w.call(abs_key, 2, "RekeyTo")),
+                     ("rel+1.rekey", w.call(rel_key, 1, "RekeyTo")), ("rel-1.rekey", w.call(rel_key, -1, "RekeyTo")), ("rekey", "RekeyTo")):
+        adm, paths = refsem.admitted(ref, fld)
+        for b, want in adm.items():
+            if b not in fblocks:
+                continue
+            got = bc[key][fblocks[b]]
+            if "other" in want and ANY not in got:
+                out.append((name, src, f"{key} sound at B{b}", sorted(map(str, got)), "any address"))
+    # at-index key: this transaction when it sits at index 1 - admitted iff the own field and index 1 are admitted on a common path
+    adm_own, paths_own = refsem.admitted(ref, "rekey")
+    adm_idx, paths_idx = refsem.admitted(ref, "index")
+    own_paths = {p for p, ok in paths_own if "other" in ok}
+    idx_paths = {p for p, ok in paths_idx if 1 in ok}
+    adm_g1, paths_g1 = refsem.admitted(ref, "abs1.rekey")
+    g1_paths = {p for p, ok in paths_g1 if "other" in ok}
+    both = own_paths & idx_paths & g1_paths
+    key = w.call(at_key, 1, "RekeyTo")
+    for b in fblocks:
+        if any(b in p for p in both) and ANY not in bc[key][fblocks[b]]:
+            out.append((name, src, f"{key} sound at B{b}", sorted(map(str, bc[key][fblocks[b]])), "any address (the transaction can sit at index 1 with an arbitrary RekeyTo)"))
+    return out
+
+
 def _gtxn_worker(args):
     root, shard, nshards, cfg = args
     import sys
     sys.setrecursionlimit(20000)
     from .context import Ctx
     from .absint import PyRaise, Unsupported
-    from .rules.cfg_rules import reference_cfg, PT, PF
-    from .rules.cmptables import _find_analyses, _addr_consts, TC
-    from . import gen, refsem
+    from . import gen
     ctx = Ctx(root)
-    w = ctx.world
-    w.module(PF).values["_apply_transaction_context_analysis"] = ("builtin", "noop")
-    pt, cf = w.func(PT, "parse_teal"), w.func(PF, "construct_function")
-    an = _find_analyses(ctx)
-    ANY, NO = _addr_consts(ctx, an["addr_fields"])
-    KH = TC + ".utils.key_helpers"
-    abs_key, rel_key, at_key = w.func(KH, "get_absolute_index_key"), w.func(KH, "get_relative_index_key"), w.func(KH, "get_gtxn_at_index_key")
+    env = gtxn_env(ctx)
     out, n = [], 0
     for k, (name, src) in enumerate(gen.checked_programs(**cfg)):
         if k % nshards != shard:
             continue
         n += 1
         try:
-            ref = reference_cfg(ctx, src)
-            teal = w.call(pt, src, "c")
-            fn = w.call(cf, teal, ["B0"])
-            fblocks = {w.getattr(b, "idx"): b for b in w.getattr(fn, "blocks")}
-            # group indices first (the address analysis reads them), then the address analysis with the gtxn keys of RekeyTo
-            gi = w.new(an["int_fields"], fn)
-            w.call(w.method(gi, "run_analysis"))
-            me = w.new(an["addr_fields"], fn)
-            me.fields["BASE_KEYS"] = ["RekeyTo"]
-            me.fields["KEYS_WITH_GTXN"] = ["RekeyTo"]
-            me.fields["_store_results"] = ("builtin", "noop")
-            w.call(w.method(me, "run_analysis"))
-            bc = w.getattr(me, "_block_contexts")
-            for fld, key in (("abs1.rekey", w.call(abs_key, 1, "RekeyTo")), ("abs2.rekey", w.call(abs_key, 2, "RekeyTo")),
-                             ("rel+1.rekey", w.call(rel_key, 1, "RekeyTo")), ("rel-1.rekey", w.call(rel_key, -1, "RekeyTo")), ("rekey", "RekeyTo")):
-                adm, paths = refsem.admitted(ref, fld)
-                for b, want in adm.items():
-                    if b not in fblocks:
-                        continue
-                    got = bc[key][fblocks[b]]
-                    if "other" in want and ANY not in got:
-                        out.append((name, src, f"{key} sound at B{b}", sorted(map(str, got)), "any address"))
-            # at-index key: this transaction when it sits at index 1 - admitted iff the own field and index 1 are admitted on a common path
-            adm_own, paths_own = refsem.admitted(ref, "rekey")
-            adm_idx, paths_idx = refsem.admitted(ref, "index")
-            own_paths = {p for p, ok in paths_own if "other" in ok}
-            idx_paths = {p for p, ok in paths_idx if 1 in ok}
-            adm_g1, paths_g1 = refsem.admitted(ref, "abs1.rekey")
-            g1_paths = {p for p, ok in paths_g1 if "other" in ok}
-            both = own_paths & idx_paths & g1_paths
-            key = w.call(at_key, 1, "RekeyTo")
-            for b in fblocks:
-                if any(b in p for p in both) and ANY not in bc[key][fblocks[b]]:
-                    out.append((name, src, f"{key} sound at B{b}", sorted(map(str, bc[key][fblocks[b]])), "any address (the transaction can sit at index 1 with an arbitrary RekeyTo)"))
+            out += gtxn_compare(ctx, env, name, src)
         except PyRaise as e:
             out.append((name, src, "runs", f"RAISES {e.exc} {e.where}", "completes"))
         except (Unsupported, RuntimeError) as e:
